@@ -40,6 +40,7 @@ Proof.
   - eapply wpb_le; [|exact Hok]. etransitivity; [apply cpop_norm|]. rewrite cpop_app, cpop_cbs. simpl. lia.
   - eapply wpb_le; [|exact Hok]. simpl. pose proof (cpop_tl l). lia.
   - destruct (dcb s d); reflexivity.
+  - destruct (dcb s d); reflexivity.
 Qed.
 
 Lemma WP_reach s : reachable_from step init s -> forall t, wpb t (thr s t) = true.
